@@ -109,6 +109,13 @@ def clique_loss(out, model, meas):
         if abs(float(v.sum()) - tot) > 1e-6 * tot:
             out.fail('invalid:sum', 'table of measured clique %s sums to %r, model.total %r' % (cl, float(v.sum()), tot)); return None
         tables[cl] = v
+    # one clique measured under two spellings is one clique: the answers are transposes of each other
+    for a in tables:
+        for b in tables:
+            if a < b and set(a) == set(b):
+                d = float(np.max(np.abs(np.transpose(tables[a], [a.index(x) for x in b]) - tables[b])))
+                if d > 1e-6 * tot:
+                    out.fail('spelling_dependent_answer', 'project(%s) and project(%s) differ by %g (total %g)' % (a, b, d, tot)); return None
     return inf.loss_from_answers(meas, lambda proj: tables[tuple(proj)])
 
 
